@@ -28,8 +28,17 @@ func (o *optimizer) optimizeAllFiles(printer FilePrinter) {
 		return
 	}
 
+	// which files use seq is decided as the rewrite stage left them: the passes below run
+	// over every loaded file each time, they may drop a file's last use before its own visit
+	usesSeq := map[string]bool{}
 	o.m.Loader.VisitAllFiles(func(f *loader.File) {
-		if !imports.Uses(f, seqPkg.Types) {
+		if imports.Uses(f, seqPkg.Types) {
+			usesSeq[f.Filename] = true
+		}
+	})
+
+	o.m.Loader.VisitAllFiles(func(f *loader.File) {
+		if !usesSeq[f.Filename] {
 			log.Printf("skip file: %s\n", f.Filename)
 			return
 		}
